@@ -53,11 +53,14 @@ func (c *fakeCAS) FindMissing(ctx context.Context, digests digest.Set) (digest.S
 	sort.Strings(names)
 	label := "cas.FindMissing(" + strings.Join(names, ",") + ")" + w.labelSuffix(ctx)
 	if ctx.Err() != nil {
-		// Deterministic: only ever called on the harness thread.
-		w.x.Point(label + "/cancelled")
+		// Deterministic: only ever called on the harness thread. The
+		// call fails because of an earlier cancellation: a failed
+		// storage operation of this action.
+		w.point(ctx, label+"/cancelled")
+		w.noteFault(ctx, label+"=cancelled-before", true)
 		return digest.EmptySet, errCancelled
 	}
-	switch w.x.Choose(label, 3) {
+	switch w.choose(ctx, label, 3) {
 	case 1:
 		w.noteFault(ctx, label+"=unavailable", true)
 		return digest.EmptySet, errInjected
@@ -111,14 +114,20 @@ func (c *fakeCAS) Put(ctx context.Context, d digest.Digest, b buffer.Buffer) err
 	// made indistinguishable for the scheduler here (buffer released
 	// once, blob not stored).
 	w.mu.Lock()
-	dead := ctx.Err() != nil || w.failedCtx[ctx]
+	sibling := w.failedCtx[ctx]
+	dead := ctx.Err() != nil || sibling
 	w.mu.Unlock()
 	if dead {
+		if !sibling {
+			// Cancelled by the environment before the call started
+			// (the failure of a sibling is already on record).
+			w.noteFault(ctx, label+"=cancelled-before", batchLayer)
+		}
 		b.Discard()
 		return errCancelled
 	}
 
-	switch w.x.Choose(label, 3) {
+	switch w.choose(ctx, label, 3) {
 	case 1:
 		w.noteFault(ctx, label+"=unavailable", batchLayer)
 		w.mu.Lock()
@@ -178,10 +187,11 @@ func (a *fakeAC) Put(ctx context.Context, d digest.Digest, b buffer.Buffer) erro
 		w.checkACWrite(ctx, result)
 	}
 	if ctx.Err() != nil {
-		w.x.Point("ac.Put/cancelled" + w.labelSuffix(ctx))
+		w.point(ctx, "ac.Put/cancelled"+w.labelSuffix(ctx))
+		w.noteFault(ctx, "ac.Put=cancelled-before", false)
 		return errCancelled
 	}
-	switch w.x.Choose("ac.Put"+w.labelSuffix(ctx), 3) {
+	switch w.choose(ctx, "ac.Put"+w.labelSuffix(ctx), 3) {
 	case 1:
 		w.noteFault(ctx, "ac.Put=unavailable", false)
 		return errInjected
@@ -219,7 +229,10 @@ func (e *fakeLocal) Execute(ctx context.Context, filePool pool.FilePool, monitor
 	var ds []*remoteexecution.Digest
 	for _, name := range cfg.blobs {
 		d := w.digests[name]
-		if err := e.writer.Put(ctx, d, w.newBuffer(ctx, name)); err == nil {
+		w.scope(ctx, 1)
+		err := e.writer.Put(ctx, d, w.newBuffer(ctx, name))
+		w.scope(ctx, -1)
+		if err == nil {
 			w.ackedPut(ctx, name)
 		} else if cfg.attach {
 			attach(resp, err)
